@@ -16,6 +16,7 @@ pub mod web;
 pub mod richerr;
 pub mod reflect;
 pub mod codegen;
+pub mod tls;
 
 /// Shared event recorder so that events survive a panic or hang of the run.
 #[derive(Clone, Default)]
@@ -57,6 +58,7 @@ fn run_one(lab: &str, stim: &Value, rec: &Rec) {
         "richerr" => richerr::run(stim, rec),
         "reflect" => reflect::run(stim, rec),
         "codegen" => codegen::run(stim, rec),
+        "tls" => tls::run(stim, rec),
         _ => { eprintln!("unknown lab {lab}"); std::process::exit(2) }
     }
 }
